@@ -6,6 +6,7 @@ import (
 	"go/constant"
 	"go/token"
 	"go/types"
+	"golang.org/x/tools/go/packages"
 
 	"golang.org/x/tools/go/ssa"
 )
@@ -394,37 +395,39 @@ func r025(c *Ctx, r *R) {
 		}
 		return true
 	})
+	// the size counter: the local integer that the worker increments
+	// (n++ / n += k) and also sets to the constant 0
+	incd, zeroed := map[types.Object]bool{}, map[types.Object]bool{}
 	ast.Inspect(fd.Body, func(n ast.Node) bool {
-		ifs, ok := n.(*ast.IfStmt)
-		if !ok {
-			return true
-		}
-		be, ok := ifs.Cond.(*ast.BinaryExpr)
-		if !ok || be.Op != token.EQL {
-			return true
-		}
-		id, ok := be.X.(*ast.Ident)
-		if !ok {
-			return true
-		}
-		if v := constVal(pkg, be.Y); v == nil || constant.Sign(v) != 0 {
-			return true
-		}
-		// body resets the timer
-		resets := false
-		ast.Inspect(ifs.Body, func(m ast.Node) bool {
-			if call, ok := m.(*ast.CallExpr); ok && funcFullName(pkg, call) == "(*time.Timer).Reset" {
-				resets = true
+		switch x := n.(type) {
+		case *ast.IncDecStmt:
+			if id, ok := x.X.(*ast.Ident); ok && x.Tok == token.INC {
+				incd[pkg.TypesInfo.ObjectOf(id)] = true
 			}
-			return true
-		})
-		if resets {
-			sizeObj = pkg.TypesInfo.ObjectOf(id)
+		case *ast.AssignStmt:
+			if len(x.Lhs) == 1 && len(x.Rhs) == 1 {
+				if id, ok := x.Lhs[0].(*ast.Ident); ok {
+					if x.Tok == token.ADD_ASSIGN {
+						incd[pkg.TypesInfo.ObjectOf(id)] = true
+					} else if v := constVal(pkg, x.Rhs[0]); v != nil && v.Kind() == constant.Int && constant.Sign(v) == 0 {
+						zeroed[pkg.TypesInfo.ObjectOf(id)] = true
+					}
+				}
+			}
 		}
 		return true
 	})
+	for o := range incd {
+		if zeroed[o] && o != nil {
+			if sizeObj != nil && sizeObj != o {
+				r.Und("shape", fd.Pos(), "batchWorker: two candidate size counters (%s, %s)", sizeObj.Name(), o.Name())
+				return
+			}
+			sizeObj = o
+		}
+	}
 	if timerObj == nil || sizeObj == nil {
-		r.Und("shape", fd.Pos(), "batchWorker: timer variable (time.NewTimer) or size counter (`if n == 0 { timer.Reset }`) not recognised (timer=%v size=%v)", timerObj != nil, sizeObj != nil)
+		r.Und("shape", fd.Pos(), "batchWorker: timer variable (time.NewTimer) or size counter (local that is incremented and zeroed) not recognised (timer=%v size=%v)", timerObj != nil, sizeObj != nil)
 		return
 	}
 	isObj := func(e ast.Expr, o types.Object) bool {
@@ -497,13 +500,15 @@ func r025(c *Ctx, r *R) {
 	fl.Cond = func(cond ast.Expr, branch bool, s int) StateSet {
 		cond = ast.Unparen(cond)
 		if be, ok := cond.(*ast.BinaryExpr); ok {
-			// size == 0 / size != 0
-			if isObj(be.X, sizeObj) {
-				if v := constVal(pkg, be.Y); v != nil && constant.Sign(v) == 0 && (be.Op == token.EQL || be.Op == token.NEQ) {
-					zero := (be.Op == token.EQL) == branch
-					if zero && s&bSize != 0 || !zero && s&bSize == 0 {
-						return 0
-					}
+			// size compared with a constant: the counter is never
+			// negative, so n==0, n<1, n<=0 mean "empty" and n!=0, n>0,
+			// n>=1 mean "non-empty" (either operand order)
+			if zero, ok := sizeZeroTest(pkg, be, func(e ast.Expr) bool { return isObj(e, sizeObj) }); ok {
+				if !branch {
+					zero = !zero
+				}
+				if zero && s&bSize != 0 || !zero && s&bSize == 0 {
+					return 0
 				}
 			}
 			// err == nil / err != nil of Commit
@@ -625,4 +630,42 @@ func r026(c *Ctx, r *R) {
 		r.Check(ok && n > 0, "dsstate."+m.name, f.Pos(), "State."+m.name+" returns nil only after the datastore write",
 			"State."+m.name+" can return nil without writing (e.g. an existence test against the read side, which for a batching state is the committed view: a queued unpin of a not-yet-committed pin is dropped)")
 	}
+}
+
+// sizeZeroTest recognises a comparison of a never-negative counter with a
+// constant that is equivalent to "counter is zero" (true) or "counter is
+// not zero" (false), in either operand order.
+func sizeZeroTest(pkg *packages.Package, be *ast.BinaryExpr, isCounter func(ast.Expr) bool) (zero, ok bool) {
+	x, y, op := ast.Unparen(be.X), ast.Unparen(be.Y), be.Op
+	if !isCounter(x) {
+		if !isCounter(y) {
+			return false, false
+		}
+		x, y = y, x
+		switch op { // flip
+		case token.LSS:
+			op = token.GTR
+		case token.GTR:
+			op = token.LSS
+		case token.LEQ:
+			op = token.GEQ
+		case token.GEQ:
+			op = token.LEQ
+		}
+	}
+	v := constVal(pkg, y)
+	if v == nil || v.Kind() != constant.Int {
+		return false, false
+	}
+	k, exact := constant.Int64Val(v)
+	if !exact {
+		return false, false
+	}
+	switch {
+	case op == token.EQL && k == 0, op == token.LSS && k == 1, op == token.LEQ && k == 0:
+		return true, true
+	case op == token.NEQ && k == 0, op == token.GTR && k == 0, op == token.GEQ && k == 1:
+		return false, true
+	}
+	return false, false
 }
